@@ -117,6 +117,14 @@ def run(rep, tier, seed):
     if big:
         interp.negative_control(rep, "depth", "LeakDepthOnLimit", {"DepthIsNesting", "ResultIsIdeal", "CleanAtEnd"}, MaxNodes=3)
 
+    # traces of the inputs the repository itself provides (the CCF lesson: they already
+    # exercise the faulty paths; only their assertions cannot see the bookkeeping)
+    ex, _ = vlib.example_traces()
+    vlib.validate_named_traces(rep, ex, "c17ex", "examples", budget=80000)
+    if big:
+        st, tail = vlib.suite_traces()
+        rep.notes["suite_run"] = tail
+        vlib.validate_named_traces(rep, st, "c17suite", "suite", budget=400000)
     # default-limit instances with the specification as executable oracle
     sd = scaled_docs(rnd, tier)
     preds, r = interp.ideal_eval([{k: v for k, v in d.items() if k != "what"} for d in sd], "c17scaled")
